@@ -1126,9 +1126,80 @@ func (e *Engine) applyContract(c *ast.CallExpr, fn *types.Func, ct *Contract, pk
 		e.spec--
 		e.assume(st.pc, v.T)
 	}
+	if ct.Opts["function"] != "" && recv == nil {
+		e.functionAxioms(fn, ct, pk, decl, args, post)
+	}
 	e.calleePost--
 	e.entry = savedEntry
 	return res
+}
+
+// functionAxioms: for a callee that is a mathematical function (`opt function yes`), the clauses written `axiom E` hold
+// for every value of the integer parameters, not only for the arguments of this call: they are assumed once per
+// combination of the other arguments, universally quantified with the function application as trigger. Sound when
+// the memory the clause reads is not written between the calls (the clause is evaluated in the state of this call).
+func (e *Engine) functionAxioms(fn *types.Func, ct *Contract, pk *Pkg, decl *ast.FuncDecl, args []Value, post *State) {
+	var axs []*Clause
+	for _, en := range ct.Ensures {
+		if en.Kind == "axiom" {
+			axs = append(axs, en)
+		}
+	}
+	if len(axs) == 0 || decl.Type.Results == nil {
+		return
+	}
+	fname := "fn_" + mangle(pkgShort(pk.Path)+"_"+fn.Name()) + "0"
+	var ts, binders []string
+	q := post.clone()
+	i := 0
+	key := "fnaxiom:" + fname
+	for _, f := range decl.Type.Params.List {
+		for _, id := range f.Names {
+			if i >= len(args) {
+				return
+			}
+			a := args[i]
+			obj := pk.Info.Defs[id]
+			if isInt(a.Typ) && !e.bv {
+				b := fmt.Sprintf("p!ax%d", i)
+				binders = append(binders, fmt.Sprintf("(%s %s)", b, e.isort()))
+				ts = append(ts, b)
+				if obj != nil {
+					q.vars[obj] = Value{b, obj.Type()}
+				}
+			} else {
+				ts = append(ts, a.T)
+				key += ":" + a.T
+			}
+			i++
+		}
+	}
+	if len(binders) == 0 || e.declared[key] {
+		return
+	}
+	e.declared[key] = true
+	app := sx(fname, ts...)
+	if len(ct.ResVars) > 0 {
+		if obj := e.resVarObj(pk, ct, ct.ResVars[0]); obj != nil {
+			q.vars[obj] = Value{app, obj.Type()}
+		}
+	}
+	for _, f := range decl.Type.Results.List {
+		for _, id := range f.Names {
+			if obj := pk.Info.Defs[id]; obj != nil {
+				q.vars[obj] = Value{app, obj.Type()}
+			}
+		}
+	}
+	for _, ax := range axs {
+		e.spec++
+		e.bound++
+		v := e.ev(ax.Expr, q)
+		e.bound--
+		e.spec--
+		e.assumes = append(e.assumes, fmt.Sprintf("(forall (%s) (! %s :pattern (%s)))", strings.Join(binders, " "), v.T, app))
+	}
+	e.stubsUsed["axiom clauses of "+pkgShort(pk.Path)+"."+ct.Name+" used universally (proved as postconditions in its own unit)"] = true
 }
 
 func (e *Engine) callSite(name string) int {
